@@ -2,7 +2,7 @@
    implementation.  Executable only.  The abstract cryptography of Model.v is
    instantiated by finite tables computed by the harness with Go's own crypto. *)
 From Coq Require Import List ZArith Bool.
-From GZ Require Export Lib.CheckLib C18.Model.
+From GZ Require Export Lib.CheckLib C18.Model C18.Header.
 Import ListNotations.
 Open Scope Z_scope.
 
@@ -135,6 +135,8 @@ Record cs_obs := mkCsObs
 
 Record cs_case := mkCs
   { x_crypt : bool;                                   (* LimitCryptionHandler alone *)
+    x_sig : bool;                                     (* the route has the signature verifier (rest.WithSignature) *)
+    x_codeobs : bool;                                 (* the callback code was observed *)
     x_jwt : option (jcfg * mactab * Z * cred);        (* the JWT gate in front *)
     x_strict : bool; x_decs : list Z; x_tol : Z; x_now : Z; x_limit : Z;
     x_req : cs_req; x_resp : list Z;
@@ -163,6 +165,16 @@ Definition model_cs (c : cs_case) : hout :=
   if x_crypt c then
     crypt_handler aes E D enc_b64 b64d (x_limit c) (x_key c) (r_clen (x_req c)) (r_body (x_req c)) (x_resp c)
   else
+    if negb (x_sig c) then
+      (* a route with the JWT option only, or a public route *)
+      match x_jwt c with
+      | Some (jc, mt, jnow, cr) =>
+        if jran (snd (authorize (tab_mac mt) [] jc jnow cr))
+        then mkHout true 200 (r_body (x_req c)) (x_resp c) false
+        else mkHout false 401 [] [] false
+      | None => mkHout true 200 (r_body (x_req c)) (x_resp c) false
+      end
+    else
     match x_jwt c with
     | Some (jc, mt, jnow, cr) =>
       chain_handler (tab_mac mt) (x_rsa_dec c) (tab_cmac (x_tags c)) (fun _ => x_digest c) aes E D enc_b64 b64d
@@ -173,7 +185,7 @@ Definition model_cs (c : cs_case) : hout :=
     end.
 
 Definition model_code (c : cs_case) : Z :=
-  if x_crypt c then -1 else
+  if x_crypt c || negb (x_sig c) then -1 else
   match snd (cs_gate (x_rsa_dec c) (tab_cmac (x_tags c)) (fun _ => x_digest c)
                      (x_strict c) (x_decs c) (x_tol c) (x_now c) (x_req c)) with
   | Some cd => code_z cd
@@ -208,7 +220,13 @@ Definition agrees_cs (c : cs_case) : bool :=
   let o := x_obs c in
   Bool.eqb (o_ran m) (c_ran o) && Bool.eqb (o_panic m) (c_panic o) &&
   (o_panic m || ((o_status m =? c_status o) && bytes_eqb (o_seen m) (c_seen o) && resp_match (o_resp m) o)) &&
-  (match x_jwt c with Some _ => true | None => model_code c =? c_code o end) &&
+  (if x_codeobs c then
+     match x_jwt c with
+     | Some (jc, mt, jnow, cr) =>
+       if jran (snd (authorize (tab_mac mt) [] jc jnow cr)) then model_code c =? c_code o else c_code o =? -1
+     | None => model_code c =? c_code o
+     end
+   else true) &&
   let '(e, d, r) := model_codec c in
   res_eqb e (c_codec_enc o) && res_eqb d (c_codec_dec o) && opt_eqb res_eqb r (c_raw_dec o).
 
@@ -250,7 +268,7 @@ Definition must_decrypt (c : cs_case) : bool :=
   | Some (p, q) => (p =? r_path (x_req c)) && (q =? r_query (x_req c))
   | None => true
   end &&
-  (x_crypt c || (negb (x_crypt c) && signed_spec c && opt_eqb Z.eqb (secret_type c) (Some 1)
+  (x_crypt c || (negb (x_crypt c) && x_sig c && signed_spec c && opt_eqb Z.eqb (secret_type c) (Some 1)
                  && checked (r_method (x_req c)))) &&
   match x_jwt c with Some (jc, mt, jnow, cr) => jwt_valid_spec mt jc jnow cr | None => true end.
 
@@ -259,7 +277,7 @@ Definition prop_cs (c : cs_case) : bool :=
   negb (c_panic o) &&
   (* gates *)
   (if c_ran o then
-     (if x_crypt c then true else if x_strict c then signed_spec c else true) &&
+     (if x_crypt c then true else if x_sig c && x_strict c then signed_spec c else true) &&
      match x_jwt c with Some (jc, mt, jnow, cr) => jwt_valid_spec mt jc jnow cr | None => true end
    else true) &&
   (* encrypted body in, encrypted response out *)
@@ -275,9 +293,35 @@ Definition prop_cs (c : cs_case) : bool :=
 
 (* ---- cases ----------------------------------------------------------------- *)
 
+(* ---- httpx.ParseHeader ------------------------------------------------------ *)
+
+Definition pair_bytes_eqb (a b : list Z * list Z) : bool := bytes_eqb (fst a) (fst b) && bytes_eqb (snd a) (snd b).
+
+(* the model's final map equals the Go map (given as key/value pairs in any order) *)
+Definition agrees_hdr (raw : list Z) (obs : list (list Z * list Z)) : bool :=
+  forallb (fun kv => opt_eqb bytes_eqb (hget (fst kv) (parse_header raw)) (Some (snd kv))) obs &&
+  forallb (fun kv => existsb (fun o => bytes_eqb (fst kv) (fst o)) obs) (parse_header raw).
+
+(* directly on the observed map: every entry is, verbatim, a trimmed ';'-field "k=v" cut at
+   its first '=', namely the last such field for k; and every well-formed field's key is there *)
+Definition field_kv (f : list Z) : option (list Z * list Z) := cut_eq (trim f).
+Definition last_for (k : list Z) (fs : list (list Z)) : option (list Z) :=
+  fold_left (fun acc f => match field_kv f with
+                          | Some (k', v) => if bytes_eqb k k' then Some v else acc
+                          | None => acc
+                          end) fs None.
+Definition prop_hdr (raw : list Z) (obs : list (list Z * list Z)) : bool :=
+  let fs := split_on 59 raw in
+  forallb (fun kv => opt_eqb bytes_eqb (last_for (fst kv) fs) (Some (snd kv))) obs &&
+  forallb (fun f => match field_kv f with
+                    | Some (k, _) => existsb (fun o => bytes_eqb k (fst o)) obs
+                    | None => true
+                    end) fs.
+
 Inductive case :=
 | CJwt (c : jcfg) (t : mactab) (reqs : list (Z * cred)) (obs : list jobs)
-| CCs (c : cs_case).
+| CCs (c : cs_case)
+| CHdr (raw : list Z) (obs : list (list Z * list Z)).
 
 Definition agrees (c : case) : bool :=
   match c with
@@ -285,20 +329,24 @@ Definition agrees (c : case) : bool :=
     forallb (fun rq => tab_complete t jc (snd rq)) reqs &&
     forall2b jres_eqb (run_jwt (tab_mac t) [] jc reqs) obs
   | CCs x => agrees_cs x
+  | CHdr raw obs => agrees_hdr raw obs
   end.
 
 Definition prop_ok (c : case) : bool :=
   match c with
   | CJwt jc t reqs obs => forall2b (jwt_prop1 t jc) reqs obs
   | CCs x => prop_cs x
+  | CHdr raw obs => prop_hdr raw obs
   end.
 
 Inductive mobs :=
 | MJwt (l : list jresult)
-| MCs (h : hout) (code : Z) (codec : res * res * option res).
+| MCs (h : hout) (code : Z) (codec : res * res * option res)
+| MHdr (l : list (list Z * list Z)).
 
 Definition model_obs (c : case) : mobs :=
   match c with
   | CJwt jc t reqs _ => MJwt (run_jwt (tab_mac t) [] jc reqs)
   | CCs x => MCs (model_cs x) (model_code x) (model_codec x)
+  | CHdr raw _ => MHdr (parse_header raw)
   end.
